@@ -1,3 +1,425 @@
-use vh::runner::Ctx;
+//! C14 — file-system operations establish their post-conditions for every path and tree.
+//!
+//! Model-based: every case builds a fresh tree below /tmp/verif-c14-<pid>-<worker>/r with
+//! std::fs, runs a history of tiny_std::fs operations in it and, after every step, walks the
+//! whole root with std::fs and compares it with the tree the operation's documentation
+//! requires (model.rs). Sub-checks per operation family (random, shrinking) plus small
+//! deterministic enumerations of the shapes the design names, so that one defect does not
+//! hide another.
+use std::collections::BTreeSet;
 
-pub fn run(_ctx: &Ctx) {}
+use proptest::prelude::*;
+use vh::runner::{catch, journal_set, CaseResult, Ctx, Failure};
+use vh::util::BStr;
+
+use self::case::{Case, Data, EKind, Entry, NameSpec, Op, Pad, PathSpec, Via};
+use self::exec::{run_case, Env};
+
+pub mod case;
+pub mod exec;
+pub mod fsio;
+pub mod model;
+
+// ------------------------------------------------------------------------------------------
+// strategies
+// ------------------------------------------------------------------------------------------
+
+const ALPHA: [u8; 12] = [b'a', b'b', b'c', b'.', b' ', b'-', 0x80, 0xff, 0xc3, b'\n', b'Z', b'.'];
+
+fn stem() -> impl Strategy<Value = BStr> {
+    prop::collection::vec(prop::sample::select(ALPHA.to_vec()), 1..=4).prop_map(BStr)
+}
+
+fn name_tree() -> impl Strategy<Value = NameSpec> {
+    (stem(), prop_oneof![14 => Just(0u16), 1 => Just(255u16), 1 => 250u16..=255, 1 => 5u16..60]).prop_map(|(stem, len)| NameSpec { stem, len })
+}
+
+fn name_op() -> impl Strategy<Value = NameSpec> {
+    (stem(), prop_oneof![28 => Just(0u16), 2 => Just(255u16), 2 => 250u16..=255, 2 => 5u16..60, 1 => 256u16..300]).prop_map(|(stem, len)| NameSpec { stem, len })
+}
+
+fn data_small() -> impl Strategy<Value = Data> {
+    prop_oneof![
+        3 => prop::collection::vec(any::<u8>(), 0..24).prop_map(|v| Data::Raw(BStr(v))),
+        2 => prop::collection::vec(prop::sample::select(b"abc xyz\n".to_vec()), 0..24).prop_map(|v| Data::Raw(BStr(v))),
+        1 => Just(Data::Raw(BStr("h\u{e9}llo \u{2713}".as_bytes().to_vec()))),
+        2 => (0u32..9000, any::<u8>(), any::<bool>()).prop_map(|(len, seed, text)| Data::Pat { len, seed, text }),
+    ]
+}
+
+fn data_copy(max: u32) -> impl Strategy<Value = Data> {
+    prop_oneof![
+        3 => data_small(),
+        2 => (4090u32..4100, any::<u8>(), any::<bool>()).prop_map(|(len, seed, text)| Data::Pat { len, seed, text }),
+        2 => (8190u32..8200, any::<u8>(), any::<bool>()).prop_map(|(len, seed, text)| Data::Pat { len, seed, text }),
+        3 => (4097u32..max, any::<u8>(), any::<bool>()).prop_map(|(len, seed, text)| Data::Pat { len, seed, text }),
+    ]
+}
+
+fn ekind(max_many: u16, many_w: u32, big: u32) -> impl Strategy<Value = EKind> {
+    prop_oneof![
+        5 => Just(EKind::Dir),
+        5 => data_copy(big).prop_map(EKind::File),
+        3 => (any::<u16>(), any::<bool>()).prop_map(|(target, rel)| EKind::Link { target, rel }),
+        1 => Just(EKind::Fifo),
+        many_w => (prop_oneof![6 => 0u16..=30, 2 => 15u16..=60, 1 => 0u16..=max_many], any::<u8>(), prop_oneof![Just(0u8), Just(1u8), any::<u8>()], any::<bool>()).prop_map(|(count, len_a, len_step, mixed)| EKind::Many { count, len_a, len_step, mixed }),
+    ]
+}
+
+fn tree(max_entries: usize, max_many: u16, many_w: u32, big: u32) -> impl Strategy<Value = Vec<Entry>> {
+    prop::collection::vec((any::<u16>(), name_tree(), ekind(max_many, many_w, big)).prop_map(|(parent, name, kind)| Entry { parent, name, kind }), 0..=max_entries)
+}
+
+fn pad_any() -> impl Strategy<Value = Pad> {
+    prop_oneof![
+        16 => Just(Pad::None),
+        3 => (505u16..=520).prop_map(Pad::Names),
+        2 => (505u16..=520).prop_map(Pad::Seps),
+        1 => (521u16..4090).prop_map(Pad::Names),
+        1 => (4088u16..=4100).prop_map(Pad::Names),
+        1 => (4090u16..=4097).prop_map(Pad::Seps),
+    ]
+}
+
+fn pad_existing() -> impl Strategy<Value = Pad> {
+    prop_oneof![
+        16 => Just(Pad::None),
+        2 => (505u16..=520).prop_map(Pad::Seps),
+        1 => (4090u16..=4097).prop_map(Pad::Seps),
+    ]
+}
+
+fn shape() -> impl Strategy<Value = (bool, u8, u8)> {
+    (prop::bool::weighted(0.3), prop_oneof![6 => Just(0u8), 1 => Just(1u8), 1 => Just(2u8)], prop_oneof![5 => Just(0u8), 2 => 1u8..8])
+}
+
+/// A path to something that exists (of kind `want`).
+fn existing(want: u8) -> impl Strategy<Value = PathSpec> {
+    (any::<u16>(), shape(), pad_existing()).prop_map(move |(base, (abs, trail, dup), pad)| PathSpec { base, want, extra: vec![], abs, trail, dup, pad })
+}
+
+fn existing_plain(want: u8) -> impl Strategy<Value = PathSpec> {
+    (any::<u16>(), prop::bool::weighted(0.3), prop_oneof![5 => Just(0u8), 1 => 1u8..8], pad_existing()).prop_map(move |(base, abs, dup, pad)| PathSpec { base, want, extra: vec![], abs, trail: 0, dup, pad })
+}
+
+/// New components (`lo..=hi` of them) behind an existing directory / symlink / the root.
+fn fresh(lo: usize, hi: usize, trail_ok: bool) -> impl Strategy<Value = PathSpec> {
+    (any::<u16>(), prop_oneof![5 => Just(2u8), 2 => Just(6u8), 1 => Just(5u8), 1 => Just(0u8)], prop::collection::vec(name_op(), lo..=hi), shape(), pad_any()).prop_map(move |(base, want, extra, (abs, trail, dup), pad)| {
+        let pad = if trail_ok { pad } else { match pad { Pad::Names(n) => Pad::Seps(n), p => p } };
+        PathSpec { base, want, extra, abs, trail: if trail_ok { trail } else { 0 }, dup, pad }
+    })
+}
+
+fn anypath() -> impl Strategy<Value = PathSpec> {
+    prop_oneof![3 => existing(0), 1 => existing(5), 2 => fresh(1, 2, true)]
+}
+
+fn op_write(big: u32) -> impl Strategy<Value = Op> {
+    (prop_oneof![4 => existing_plain(1), 4 => fresh(1, 1, false), 1 => existing_plain(3), 1 => anypath()], data_copy(big)).prop_map(|(p, data)| Op::Write { p, data })
+}
+
+fn op_read() -> impl Strategy<Value = Op> {
+    prop_oneof![
+        5 => existing_plain(1).prop_map(|p| Op::Read { p }),
+        3 => existing_plain(1).prop_map(|p| Op::ReadToString { p }),
+        1 => existing_plain(3).prop_map(|p| Op::Read { p }),
+        1 => anypath().prop_map(|p| Op::Read { p }),
+        1 => anypath().prop_map(|p| Op::ReadToString { p }),
+    ]
+}
+
+fn op_copy() -> impl Strategy<Value = Op> {
+    (
+        prop_oneof![8 => existing_plain(1), 1 => existing_plain(3), 1 => anypath()],
+        prop_oneof![5 => existing_plain(1), 5 => fresh(1, 1, false), 1 => existing_plain(3), 1 => anypath()],
+        prop_oneof![3 => Just(Via::CopyFile), 2 => Just(Via::Handle { pre: 0 }), 2 => (1u32..10).prop_map(|pre| Via::Handle { pre }), 1 => (10u32..20000).prop_map(|pre| Via::Handle { pre })],
+        prop_oneof![3 => Just(None), 1 => (1u32..64).prop_map(Some), 2 => (64u32..9000).prop_map(Some)],
+    )
+        .prop_map(|(src, dst, via, clamp)| Op::Copy { src, dst, via, clamp })
+}
+
+fn op_cda() -> impl Strategy<Value = Op> {
+    prop_oneof![8 => fresh(1, 4, true), 2 => fresh(0, 0, true), 1 => existing(0)].prop_map(|p| Op::CreateDirAll { p })
+}
+
+fn op_mkdir() -> impl Strategy<Value = Op> {
+    prop_oneof![6 => fresh(1, 1, true), 1 => fresh(2, 2, true), 1 => existing(0)].prop_map(|p| Op::CreateDir { p })
+}
+
+fn op_rda() -> impl Strategy<Value = Op> {
+    prop_oneof![8 => existing(2), 1 => existing(0), 1 => fresh(1, 1, true)].prop_map(|p| Op::RemoveDirAll { p })
+}
+
+fn op_readdir() -> impl Strategy<Value = Op> {
+    prop_oneof![8 => existing(2), 1 => existing(5), 1 => existing(0)].prop_map(|p| Op::ReadDir { p })
+}
+
+fn op_misc() -> impl Strategy<Value = Op> {
+    prop_oneof![
+        3 => (prop_oneof![6 => existing(0), 1 => existing(5), 1 => fresh(1, 1, true)], prop_oneof![4 => fresh(1, 1, true), 3 => existing(0), 1 => existing(5)]).prop_map(|(src, dst)| Op::Rename { src, dst }),
+        2 => prop_oneof![5 => existing_plain(4), 1 => anypath()].prop_map(|p| Op::RemoveFile { p }),
+        2 => prop_oneof![5 => existing(2), 1 => anypath()].prop_map(|p| Op::RemoveDir { p }),
+        2 => anypath().prop_map(|p| Op::Exists { p }),
+        2 => anypath().prop_map(|p| Op::Metadata { p }),
+        1 => op_mkdir(),
+    ]
+}
+
+fn op_any(big: u32) -> impl Strategy<Value = Op> {
+    prop_oneof![3 => op_write(big), 2 => op_read(), 3 => op_copy(), 3 => op_cda(), 2 => op_rda(), 2 => op_readdir(), 6 => op_misc()]
+}
+
+fn case_of(tree: impl Strategy<Value = Vec<Entry>>, op: impl Strategy<Value = Op>, max_ops: usize) -> impl Strategy<Value = Case> {
+    (tree, prop::collection::vec(op, 1..=max_ops)).prop_map(|(tree, ops)| Case { tree, ops })
+}
+
+// ------------------------------------------------------------------------------------------
+// deterministic enumerations of the named shapes
+// ------------------------------------------------------------------------------------------
+
+/// draw value that `pick_idx` maps to index `i` of `n`
+fn idx_for(i: usize, n: usize) -> u16 {
+    (((i << 16) + n - 1) / n) as u16
+}
+
+fn ent(parent: u16, name: &[u8], kind: EKind) -> Entry {
+    Entry { parent, name: NameSpec::new(name, 0), kind }
+}
+
+fn pat(len: u32, seed: u8) -> Data {
+    Data::Pat { len, seed, text: false }
+}
+
+fn shapes_create_dir_all() -> Vec<Case> {
+    // root: a/ a/b/ f l->a     directories in key order: [root, a, a/b]
+    let tree = vec![ent(0, b"a", EKind::Dir), ent(idx_for(1, 2), b"b", EKind::Dir), ent(0, b"f", EKind::File(Data::Raw(BStr(b"x".to_vec())))), ent(0, b"l", EKind::Link { target: 0, rel: true })];
+    let bases: [(u8, u16); 4] = [(6, 0), (2, idx_for(1, 3)), (2, idx_for(2, 3)), (3, 0)];
+    let mut pads = vec![Pad::None];
+    for n in 510u16..=516 {
+        pads.push(Pad::Names(n));
+    }
+    for n in 510u16..=516 {
+        pads.push(Pad::Seps(n));
+    }
+    pads.push(Pad::Names(1000));
+    pads.push(Pad::Names(4095));
+    let mut out = Vec::new();
+    for pad in &pads {
+        for ncomp in 1..=3usize {
+            for &(want, base) in &bases {
+                for abs in [false, true] {
+                    for trail in [0u8, 1] {
+                        for dup in [0u8, 1] {
+                            let extra: Vec<NameSpec> = (0..ncomp).map(|i| NameSpec::new(&[b'n', b'0' + i as u8], 0)).collect();
+                            out.push(Case { tree: tree.clone(), ops: vec![Op::CreateDirAll { p: PathSpec { base, want, extra, abs, trail, dup, pad: pad.clone() } }] });
+                        }
+                    }
+                }
+            }
+        }
+    }
+    out
+}
+
+fn shapes_copy() -> Vec<Case> {
+    let mut out = Vec::new();
+    for &size in &[0u32, 1, 5, 4096, 4097, 20000] {
+        // destination: absent, shorter, same length, longer
+        for dst in 0..4u8 {
+            let dlen = match dst {
+                1 => size / 2,
+                2 => size,
+                3 => size + 7,
+                _ => 0,
+            };
+            if dst == 1 && size == 0 {
+                continue;
+            }
+            let mut vias = vec![Via::CopyFile, Via::Handle { pre: 0 }];
+            if size > 0 {
+                vias.push(Via::Handle { pre: 1 });
+                vias.push(Via::Handle { pre: size });
+            }
+            if size > 3 {
+                vias.push(Via::Handle { pre: 3 });
+            }
+            for via in vias {
+                let mut clamps = vec![None];
+                if size > 4096 {
+                    clamps.push(Some(4096));
+                    clamps.push(Some(size - 1));
+                    clamps.push(Some(7));
+                }
+                for clamp in clamps {
+                    // files in key order: "d" < "s"
+                    let mut tree = vec![ent(0, b"s", EKind::File(pat(size, 1)))];
+                    let dstp = if dst == 0 {
+                        PathSpec::simple(6, 0, &[b"d"])
+                    } else {
+                        tree.push(ent(0, b"d", EKind::File(pat(dlen, 2))));
+                        PathSpec::simple(1, idx_for(0, 2), &[])
+                    };
+                    let srcp = PathSpec::simple(1, if dst == 0 { 0 } else { idx_for(1, 2) }, &[]);
+                    out.push(Case { tree, ops: vec![Op::Copy { src: srcp, dst: dstp, via: via.clone(), clamp }] });
+                }
+            }
+        }
+    }
+    out
+}
+
+fn shapes_write_read() -> Vec<Case> {
+    let mut out = Vec::new();
+    for &size in &[0u32, 1, 31, 32, 33, 4096, 4097, 70000] {
+        for prior in 0..3u8 {
+            for text in [false, true] {
+                for shape in 0..4u8 {
+                    // prior: none, shorter, longer
+                    let mut tree = vec![ent(0, b"d", EKind::Dir)];
+                    let p = match prior {
+                        0 => PathSpec { base: idx_for(1, 2), want: 2, extra: vec![NameSpec::new(b"f", 0)], abs: shape & 1 == 1, trail: 0, dup: shape >> 1, pad: Pad::None },
+                        _ => {
+                            tree.push(ent(idx_for(1, 2), b"f", EKind::File(pat(if prior == 1 { size / 2 } else { size + 100 }, 9))));
+                            PathSpec { base: 0, want: 1, extra: vec![], abs: shape & 1 == 1, trail: 0, dup: shape >> 1, pad: Pad::None }
+                        }
+                    };
+                    let rp = PathSpec { base: 0, want: 1, extra: vec![], abs: shape & 1 == 0, trail: 0, dup: 0, pad: Pad::None };
+                    out.push(Case { tree, ops: vec![Op::Write { p, data: Data::Pat { len: size, seed: 3, text } }, Op::Read { p: rp.clone() }, Op::ReadToString { p: rp }] });
+                }
+            }
+        }
+    }
+    out
+}
+
+fn shapes_remove_dir_all() -> Vec<Case> {
+    let mut out = Vec::new();
+    for variant in 0..6u8 {
+        for shape in 0..8u8 {
+            // outside: o/ (with file of), of2; victim v/ with nested content and links out
+            let mut t = vec![
+                ent(0, b"o", EKind::Dir),                                            // dirs: [root, o]
+                ent(idx_for(1, 2), b"of", EKind::File(Data::Raw(BStr(b"keep".to_vec())))), // all: [o, o/of]
+                ent(0, b"of2", EKind::File(Data::Raw(BStr(b"keep2".to_vec())))),     // all: [o, o/of, of2]
+                ent(0, b"v", EKind::Dir),                                            // dirs: [root, o, v]; all: +v
+            ];
+            let v = idx_for(2, 3);
+            match variant {
+                0 => {}
+                1 => {
+                    t.push(ent(v, b"f", EKind::File(Data::Raw(BStr(b"1".to_vec())))));
+                    t.push(ent(v, b".hidden", EKind::File(Data::Raw(BStr(vec![])))));
+                    t.push(ent(v, b"..x", EKind::Dir));
+                    t.push(ent(v, b".d", EKind::Dir));
+                }
+                2 => {
+                    // links to things outside the victim
+                    t.push(ent(v, b"ld", EKind::Link { target: idx_for(0, 4), rel: false }));
+                    t.push(ent(v, b"lf", EKind::Link { target: idx_for(1, 5), rel: false }));
+                    t.push(ent(v, b"lf2", EKind::Link { target: idx_for(2, 6), rel: false }));
+                    t.push(ent(v, b"fifo", EKind::Fifo));
+                }
+                3 => {
+                    // nesting 4 deep with a link to the outside at the bottom
+                    t.push(ent(v, b"d1", EKind::Dir)); // dirs: [root,o,v,v/d1]
+                    t.push(ent(idx_for(3, 4), b"d2", EKind::Dir));
+                    t.push(ent(idx_for(4, 5), b"d3", EKind::Dir));
+                    t.push(ent(idx_for(5, 6), b"d4", EKind::Dir));
+                    t.push(ent(idx_for(6, 7), b"deep", EKind::File(Data::Raw(BStr(b"z".to_vec())))));
+                    t.push(ent(idx_for(6, 7), b"out", EKind::Link { target: idx_for(0, 9), rel: false }));
+                }
+                4 => {
+                    t.push(ent(v, b"many", EKind::Many { count: 300, len_a: 0, len_step: 37, mixed: true }));
+                    t.push(Entry { parent: v, name: NameSpec::new(b"L", 255), kind: EKind::Dir });
+                    t.push(ent(v, &[0xff, 0xfe, b'\n'], EKind::File(Data::Raw(BStr(vec![1])))));
+                }
+                _ => {
+                    // a link inside the victim to another entry inside, and one from outside in
+                    t.push(ent(v, b"in", EKind::File(Data::Raw(BStr(b"i".to_vec())))));
+                    t.push(ent(v, b"lin", EKind::Link { target: idx_for(4, 5), rel: true }));
+                    t.push(ent(0, b"from-outside", EKind::Link { target: idx_for(3, 6), rel: false }));
+                }
+            }
+            let p = PathSpec { base: idx_for(2, 3), want: 2, extra: vec![], abs: shape & 1 == 1, trail: (shape >> 1) & 1, dup: (shape >> 2) & 1, pad: Pad::None };
+            out.push(Case { tree: t, ops: vec![Op::RemoveDirAll { p }] });
+        }
+    }
+    out
+}
+
+fn shapes_readdir() -> Vec<Case> {
+    let mut out = Vec::new();
+    for &(len_a, len_step) in &[(0u8, 0u8), (251, 0), (0, 1), (0, 37), (100, 13), (20, 0)] {
+        for &count in &[0u16, 1, 16, 17, 18, 19, 20, 21, 22, 40, 300] {
+            for mixed in [false, true] {
+                let mut t = vec![ent(0, b"m", EKind::Many { count, len_a, len_step, mixed })];
+                t.push(Entry { parent: idx_for(1, 2), name: NameSpec::new(b"N", 255), kind: EKind::File(Data::Raw(BStr(vec![]))) });
+                t.push(ent(idx_for(1, 2), &[0x80, 0xff], EKind::Dir));
+                t.push(ent(idx_for(1, 2), b".dot", EKind::File(Data::Raw(BStr(vec![])))));
+                t.push(ent(idx_for(1, 2), b"..dd", EKind::Dir));
+                t.push(ent(idx_for(1, 2), b"x", EKind::Fifo));
+                let p = PathSpec::simple(2, idx_for(1, 4), &[]);
+                out.push(Case { tree: t, ops: vec![Op::ReadDir { p }] });
+            }
+        }
+    }
+    out
+}
+
+fn directed(ctx: &Ctx, env: &Env, name: &str, cases: Vec<Case>) {
+    if ctx.is_replay() {
+        if let Some(c) = ctx.replay_case::<Case>(name) {
+            ctx.run_one(name, &c, || run_case(env, &c));
+        }
+        return;
+    }
+    let total = cases.len();
+    let mut seen: BTreeSet<String> = BTreeSet::new();
+    for (i, c) in cases.iter().enumerate() {
+        if i % ctx.nworkers as usize != ctx.worker as usize {
+            continue;
+        }
+        // journal first (a crash must leave the input), run once, and hand the result to the
+        // bookkeeping; only the first (smallest) case of each failure signature is reported
+        let js = format!("{{\"property\":{:?},\"check\":{:?},\"case\":{}}}", ctx.prop, name, serde_json::to_string(c).unwrap());
+        journal_set(js.as_bytes());
+        let res: CaseResult = match catch(|| run_case(env, c)) {
+            Ok(r) => r,
+            Err((loc, msg)) => Err(Failure::new(format!("{name}|panic|{loc}"), format!("panicked at {loc}: {msg}"))),
+        };
+        if let Err(f) = &res {
+            if !seen.insert(f.sig.clone()) {
+                continue;
+            }
+        }
+        ctx.run_one(name, c, move || res);
+    }
+    if !ctx.has_failure() {
+        ctx.note_exhaustive(format!("{name}: all {total} enumerated shapes (split over the workers)"));
+    }
+}
+
+pub fn run(ctx: &Ctx) {
+    let thorough = ctx.thorough();
+    let max_many: u16 = if thorough { 3000 } else { 300 };
+    let big: u32 = if thorough { 1_500_000 } else { 120_000 };
+    let env = Env::new(ctx.worker, max_many as usize);
+    let f = |c: &Case| run_case(&env, c);
+
+    // deterministic shapes
+    directed(ctx, &env, "create_dir_all-shapes", shapes_create_dir_all());
+    directed(ctx, &env, "copy-shapes", shapes_copy());
+    directed(ctx, &env, "write-read-shapes", shapes_write_read());
+    directed(ctx, &env, "remove_dir_all-shapes", shapes_remove_dir_all());
+    directed(ctx, &env, "readdir-shapes", shapes_readdir());
+
+    // random, one family per sub-check
+    ctx.run_prop("create_dir_all", ctx.cases(400, 12_000), case_of(tree(6, 0, 0, 5000), op_cda(), 4), f);
+    ctx.run_prop("copy", ctx.cases(300, 8_000), case_of(tree(6, 0, 0, big), op_copy(), 4), f);
+    ctx.run_prop("write-read", ctx.cases(300, 8_000), case_of(tree(6, 0, 0, big), prop_oneof![op_write(big), op_read()], 6), f);
+    ctx.run_prop("remove_dir_all", ctx.cases(300, 8_000), case_of(tree(14, max_many, 1, 5000), op_rda(), 3), f);
+    ctx.run_prop("readdir", ctx.cases(300, 6_000), case_of(tree(10, max_many, 3, 5000), op_readdir(), 3), f);
+    ctx.run_prop("rename-misc", ctx.cases(400, 12_000), case_of(tree(10, 40, 1, 5000), op_misc(), 8), f);
+    // mixed histories
+    ctx.run_prop("history", ctx.cases(500, 15_000), case_of(tree(12, max_many, 1, big), op_any(big), 30), f);
+}
